@@ -7,21 +7,23 @@ Open Scope string_scope.
 
 Lemma allowed_by_sound al e :
   allowed_by al e = true ->
-  exists a, In a al /\ a_file a = e_file e /\ a_func a = e_func e /\ a_text a = e_text e
-            /\ a_reason a <> "".
+  exists a, In a al /\ a_file a = e_file e /\ (a_func a = "*" \/ a_func a = e_func e)
+            /\ a_text a = e_text e /\ a_reason a <> "".
 Proof.
   unfold allowed_by. intros H. apply existsb_exists in H. destruct H as [a [Hin Hm]].
   apply andb_true_iff in Hm. destruct Hm as [Hm Hr].
   unfold allow_matches in Hm. apply andb_true_iff in Hm. destruct Hm as [Hm H3].
   apply andb_true_iff in Hm. destruct Hm as [H1 H2].
-  apply String.eqb_eq in H1. apply String.eqb_eq in H2. apply String.eqb_eq in H3.
+  apply String.eqb_eq in H1. apply String.eqb_eq in H3.
+  unfold func_matches in H2. apply orb_true_iff in H2.
+  rewrite !String.eqb_eq in H2.
   exists a. repeat split; auto.
   unfold reason_given in Hr. destruct (a_reason a); [discriminate|]. discriminate.
 Qed.
 
 Definition Allowed (al : list allowed) (e : entry) : Prop :=
-  exists a, In a al /\ a_file a = e_file e /\ a_func a = e_func e /\ a_text a = e_text e
-            /\ a_reason a <> "".
+  exists a, In a al /\ a_file a = e_file e /\ (a_func a = "*" \/ a_func a = e_func e)
+            /\ a_text a = e_text e /\ a_reason a <> "".
 
 (* every live entry is harmless by classification or allow-listed with a reason *)
 Theorem audit_sound : forall al fp, audit_ok al fp = true ->
